@@ -508,3 +508,20 @@ _ADDED = {
 }
 for _k, _v in _ADDED.items():
     PROPS[_k]["rule"] += _v
+
+_ADDED2 = {'C02': " Rounds 4-5: actions 'burst' (several pacer releases back to back), 'bad' (a target no request can be built from), both orders of the Workers/MaxWorkers options, option subsets that must not matter, max-workers up to 300; C02.twoattacks: two attacks interleaved on one attacker; C02.dialpath: a real attack through the DNS-caching dial function (both IP families, slow/failing family) must leave no goroutine parked in library code.", 'C03': " Rounds 4-5: 'burst' and 'bad' actions, both option orders, options that must not matter (MaxConnections etc.), max-workers up to 300 with bursts filling all capacity.", 'C04': ' Rounds 4-5: C04.forever and C04.tinyduration on the real clock (a wait of 2^63-1 ns releases nothing; durations below the start-up time never reach the pacer).',
+    'C05': ' Rounds 4-5: first round trips failing with EOF/reset/pipe errors (latency >= total transport time), targets carrying X-Vegeta-* headers, a real constant pacer with periodic stalls, malformed targets.',
+    'C06': ' Rounds 4-5: targets carrying X-Vegeta-Seq / X-Vegeta-Attack, bodies whose Close fails.',
+    'C07': ' Rounds 4-5: results encoded from recycled buffers, escape look-alike texts; sizes: a ladder of body (64 KiB..16 MiB) and header (64 KiB..2 MiB) sizes; C07.parallel: independent encoders in 2..32 goroutines.',
+    'C08': ' Rounds 4-5: seekable sources behind a consumed prefix, readers returning the last bytes with io.EOF, the size ladder through auto-detection.',
+    'C09': ' Rounds 4-5: the size ladder (prefixes at every Encode boundary, a cut inside the record after the large one).',
+    'C10': ' Rounds 4-5: periodic reporting (-every) over a slow pipe, instants across the ends of the int64 nanosecond clock and near the years 1 and 9999, C10.manyerrors: 120 000..500 000 distinct error texts.',
+    'C11': ' Rounds 4-5: 30 000..150 000 samples in the quick tier; C11.reportcmd: the report command on generated files (zero latencies after non-zero ones, large records).',
+    'C12': ' Rounds 4-5: periodic reporting over a slow pipe, JSON snapshots kept across later renderings, bounds below zero, a reporter built before the buckets are set.',
+    'C13': ' Rounds 4-5: splits of one encoding compared record by record as JSON values (null and {} apart), file names that are glob patterns of their neighbours, a bucket list out of order.',
+    'C14': " Rounds 4-5: unusual URL spellings kept verbatim, -body through a named pipe, an exhausted targeter next to a new one, @file paths through a symlink and '..'.", 'C15': ' Rounds 4-5: compact documents with (indented) comments between targets, a static targeter over an eagerly read document, nil-target calls, C15.errortail: sources ending in an error inside a header block (every caller gets an answer).',
+    'C16': " Rounds 4-5: documents built from each format's grammar with hostile values per position (CSV columns incl. base64 of malformed header blocks, JSON members repeated/mistyped, http lines of n x 4096 bytes, runs of non-UTF-8 bytes after a JSON value).", 'C17': ' Rounds 4-5: second and incremental renderings of one plot; C17.huge: 530 000..700 000 results with one very late result.',
+    'C18': ' Rounds 4-5: C18.refresh with the host left idle for twelve refresh intervals; C18.localaddr: LocalAddr/KeepAlive(false) on the loopback interface (127.0.0.1 and ::1 servers on one port must both see connections).',
+    'C19': " Rounds 4-5: rate periods from the duration grammar (fractions without integer part etc.), -proxy-header next to -header; C19.resolverscmd: a loopback DNS server is the only one that knows the target's name, for every -dns-ttl.", 'C20': ' Rounds 4-5: scrapes through the HTTP handler between observations; 50 000..200 000 results waiting in the channel when the pump starts.'}
+for _k, _v in _ADDED2.items():
+    PROPS[_k]["rule"] += _v
